@@ -4,6 +4,7 @@ from __future__ import annotations
 
 import fcntl
 import json
+import logging
 import multiprocessing as mp
 import os
 import re
@@ -236,12 +237,48 @@ def run_coqchk(check: Check):
     return res, None
 
 
+class _Drain(logging.Handler):
+    """formats every record (so that lazily formatted arguments are evaluated) and throws it away"""
+
+    def emit(self, record):
+        try:
+            record.getMessage()
+        except Exception:  # pylint: disable=broad-except
+            pass
+
+
+def debug_logging_for(case) -> bool:
+    """every eighth case (a function of the case, so that a replay repeats it) runs with the logging module
+    switched to DEBUG for every logger, as an application that debugs its scheduler would: what the library does
+    must not depend on it"""
+    return int(common.case_hash(case)[:2], 16) % 8 == 0
+
+
 def _impl_worker(args):
     check, case = args
+    dbg = debug_logging_for(case)
+    saved = []
+    drain = None
+    if dbg:
+        root = logging.getLogger()
+        names = [None] + [n for n in logging.root.manager.loggerDict if n.split(".")[0] == "job_shop_lib"]
+        for n in names + ["job_shop_lib"]:
+            lg = logging.getLogger(n)
+            saved.append((lg, lg.level, lg.disabled))
+            lg.setLevel(logging.DEBUG)
+            lg.disabled = False
+        drain = _Drain()
+        root.addHandler(drain)
     try:
         return ("ok", check.run_impl(case))
     except Exception:  # pylint: disable=broad-except
         return ("crash", traceback.format_exc()[-1500:])
+    finally:
+        if dbg:
+            logging.getLogger().removeHandler(drain)
+            for lg, level, disabled in saved:
+                lg.setLevel(level)
+                lg.disabled = disabled
 
 
 def evaluate(check: Check, cases, pool=None):
